@@ -8,8 +8,9 @@ PROP=$1; DIFF=$(readlink -f "$2"); DEMO=${3:-}
 [ -n "$DEMO" ] && DEMO=$(readlink -f "$DEMO")
 VERIF=$(cd "$(dirname "$0")/.." && pwd)
 WS=$(mktemp -d /tmp/ws-XXXXXX)
+TAG=$(printf %s "$WS" | sha1sum | cut -c1-8)
 export GOFLAGS=-mod=mod GOPROXY=off GOSUMDB=off GOTOOLCHAIN=local
-cleanup() { git -C /repo worktree remove --force "$WS" >/dev/null 2>&1; rm -rf "$WS" "$VERIF/harness/bin/mod-"* /tmp/verif-lean-* ; }
+cleanup() { git -C /repo worktree remove --force "$WS" >/dev/null 2>&1; rm -rf "$WS" "$VERIF/harness/bin/mod-"* /tmp/verif-lean-* "$VERIF/harness/bin/cosedrive-$TAG" "$VERIF/harness/bin/cosedrive-race-$TAG"; }
 trap cleanup EXIT
 git -C /repo worktree add -q --detach "$WS" HEAD || exit 2
 cd "$WS"
